@@ -12,6 +12,7 @@ import random
 import re
 from concurrent.futures import ThreadPoolExecutor
 
+import e2e
 import vlib
 from vlib import log
 
@@ -206,9 +207,35 @@ def run(tier, replay):
             elif not refok:
                 V.diverge("case %d: output complete but Ref is false along every accepted reading of the trace" % c["id"])
         log("trace validation: %d of %d recorded session traces accepted by SessionTrace (%d states)" % (accepted, len(tv), tstates))
+        # binding self-test: an accepted trace in which flush() reports "nothing queued" before the last lines were read,
+        # and one from which the end of a Read() carrying a line was removed, must both be rejected
+        binding_selftest = "no suitable trace in this run"
+        for (c, res), (acc, refok, _, _) in zip(zip(cases, results), tv):
+            evs = trace_events(res.get("trace") or [])
+            fl = [i for i, e in enumerate(evs) if e["ev"] == "flush" and e["v"] == 0]
+            ln = [i for i, e in enumerate(evs) if e["ev"] == "line"]
+            if acc and len(c["cmds"]) == 1 and fl and len(ln) > 12 and fl[0] > ln[-1]:
+                t1 = [e for i, e in enumerate(evs) if i != fl[0]]
+                t1.insert(ln[-4] - 1, evs[fl[0]])
+                t2 = [e for i, e in enumerate(evs) if i != ln[len(ln) // 2]]
+                verdicts = []
+                for k, tr in enumerate((t1, t2)):
+                    saved = trace_events
+                    try:
+                        globals()["trace_events"] = lambda _t, tr=tr: tr
+                        verdicts.append(validate_trace(wd, dict(c, id=900000 + 10 * c["id"] + k), res)[0])
+                    finally:
+                        globals()["trace_events"] = saved
+                if any(verdicts):
+                    raise vlib.Inconclusive("SessionTrace accepts a corrupted trace (%s): the trace spec does not bind" % verdicts)
+                binding_selftest = "2 corrupted traces (early flush, dropped line event) rejected"
+                break
         states += tstates
-        cov = {"states": states, "transitions": trans, "traces_validated_against_impl": len(cases),
-               "session_traces_accepted_by_SessionTrace": accepted, "session_traces_checked": len(tv),
+        # end-to-end over the real SSH transport (real dserver processes, real client binary), free-running
+        ssh_runs = e2e.stage_slow(wd, V, rng, tier)
+        log("SSH stage: %d client runs against real dserver processes" % ssh_runs)
+        cov = {"ssh_slow_consumer_runs": ssh_runs, "states": states, "transitions": trans, "traces_validated_against_impl": len(cases),
+               "session_traces_accepted_by_SessionTrace": accepted, "session_traces_checked": len(tv), "trace_binding_selftest": binding_selftest,
                "evaluations": len(cases), "distinct_nontrivial": sum(1 for c in cases if c["pace"] != "fast" or len(c["cmds"]) > 1),
                "rule": "cases = distinct complete behaviours of SessionSched (order of 'deliver command k' and 'copy once' steps) from TLC "
                        "-simulate for 6 command/file shapes, each replayed with real line counts (model lines x 1/33/50, +-1 around the "
